@@ -158,7 +158,9 @@ class VM:
             self.flags.update(flags)
         self.defs = dict(defs or {})            # handle int -> body bytes
         self.tainted_defs = set()
-        self.tainted_flags = set()
+        self.flag_changed_in = {}               # flag -> id of the body activation that ran SET/UNSET_FLAG on it
+        self.body_id = 0
+        self.body_counter = 0
         self.depth = 0                          # CALL/EVAL nesting
         self.scope = 0                          # >0 inside IF/TRY/EXCEPT/LOOP bodies (for taint)
 
@@ -203,8 +205,9 @@ class VM:
         self.push(b'\xff' if v else b'\x00')
 
     def flag(self, k):
-        if k in self.tainted_flags:
-            raise Unspec('flag changed inside a nested body')
+        # a flag changed by SET/UNSET_FLAG is only determined for later instructions of the same body
+        if k in self.flag_changed_in and self.flag_changed_in[k] != self.body_id:
+            raise Unspec('flag changed by a flag instruction in another body')
         return self.flags.get(k)
 
     # ------------------------------------------------------------ execution
@@ -213,6 +216,15 @@ class VM:
         return self.body(code)
 
     def body(self, code):
+        prev_body = self.body_id
+        self.body_counter += 1
+        self.body_id = self.body_counter
+        try:
+            return self.body_(code)
+        finally:
+            self.body_id = prev_body
+
+    def body_(self, code):
         pc = 0
         n = len(code)
         env = self.env
@@ -363,7 +375,9 @@ class VM:
                     if pt != root:
                         self.pushbool(False)
                     else:
-                        if self.eval_(self.check_script(script)) == RET:
+                        # documented: "put the script back on the stack and OP_EVAL"
+                        self.push(script)
+                        if self.eval_(self.pop_script()) == RET:
                             return RET
                 else:
                     env.sigext_calls += 1
@@ -401,14 +415,14 @@ class VM:
         env.n_calls += 1
         if env.n_calls > env.limit:
             raise Unspec('cumulative call budget accounting')
-        saved = (dict(self.defs), set(self.tainted_defs), dict(self.flags), set(self.tainted_flags), self.scope)
+        saved = (dict(self.defs), set(self.tainted_defs), dict(self.flags), dict(self.flag_changed_in), self.scope)
         self.depth += 1
         self.scope = 0
         try:
             sig = self.body(script)
         finally:
             self.depth -= 1
-            self.defs, self.tainted_defs, self.flags, self.tainted_flags, self.scope = \
+            self.defs, self.tainted_defs, self.flags, self.flag_changed_in, self.scope = \
                 saved[0], saved[1], saved[2], saved[3], saved[4]
         if sig == RET and self.flags.get('eval_return'):
             return RET
@@ -802,15 +816,13 @@ class VM:
         if k not in DEFAULT_FLAGS:
             raise RErr('flag', 'unrecognized flag')
         self.flags[k] = DEFAULT_FLAGS[k]
-        if self.scope > 0 or self.depth > 0:
-            self.tainted_flags.add(k)
+        self.flag_changed_in[k] = self.body_id
 
     def op_UNSET_FLAG(self, rd, rd1):
         k = self.flagkey(rd(rd1()))
         if k in DEFAULT_FLAGS or k in self.flags:
             self.flags.pop(k, None)
-            if self.scope > 0 or self.depth > 0:
-                self.tainted_flags.add(k)
+            self.flag_changed_in[k] = self.body_id
 
     # time
     def popconstraint(self):
@@ -871,6 +883,9 @@ class VM:
                 raise Unspec('GET_VALUE of unsupported type')
 
     # signatures
+    def thr_flag(self, k):
+        return self.flag(k)
+
     def check_sig(self, key, sig, allowed):
         if len(key) != 32 or len(sig) not in (64, 65):
             raise RErr('type', 'key/signature length')
@@ -1224,9 +1239,10 @@ class VM:
         self.pushbool(ok and amount <= agg[bytes(dest)])
 
     def template(self, rd1):
-        if self.flags.get(10, True):
-            if 10 in self.tainted_flags:
-                raise Unspec('flag changed inside a nested body')
+        if 10 not in self.flags:
+            self.flag(10)
+            raise Unspec('CHECK_TEMPLATE with flag 10 unset (docs: "if set to True", default True)')
+        if self.flag(10):
             self.env.sigext_calls += 1
         flag = rd1()
         ok = True
@@ -1294,13 +1310,12 @@ def run_scripts(scripts, env, ro=None, cache=None, flags=None):
     vm = VM(env, ro=ro, cache=cache, flags=flags)
     try:
         for s in scripts:
-            vm.tainted_flags = set(vm.tainted_flags)
             vm.run(bytes(s))
             # flags are per script: each script starts from the embedder's configuration
             vm.flags = dict(DEFAULT_FLAGS)
             if flags:
                 vm.flags.update(flags)
-            vm.tainted_flags = set()
+            vm.flag_changed_in = {}
     except RErr as e:
         return ('error', e.cat)
     return ('ok', vm.stack, vm.cache)
